@@ -68,6 +68,21 @@ def run(ctx, which=WHICH, oracle=None, per_trace=None):
         ctx.disagree("act.translator", {"error": repr(e)}, "readable tree", "exception")
     cap = ctx.n(2500, 6000)
     if which == "C08":
+        # the multi-process mediator is a supported way of running: its histories are judged by the oracle too (a candidate that is
+        # trashed while its out-state is still being computed ahead of time must not survive in the scheduler)
+        try:
+            mptrs = runs.run_jobs(ctx.root, runcommon.mp_jobs(ctx), workers=4)
+        except Exception as e:  # noqa
+            mptrs = []
+            ctx.disagree("run.multi-process-histories", {}, "evaluated", repr(e))
+        for tr in mptrs:
+            if tr["legs"]:
+                stats = {}
+                oracle(tr, ctx.fail, stats)
+                runcommon.record_trace_stats(ctx, tr, stats)
+                ctx.count("mp-histories")
+            else:
+                ctx.count("mp-trace-failed:" + str(tr["end"])[:60])
         # dumped and resumed runs are further histories: a candidate that was trashed before the dump must stay trashed afterwards
         for tr in runcommon.resumed_traces(ctx):
             if tr["legs"]:
